@@ -21,7 +21,19 @@ Inductive case :=
 | CReent (t : option Z) (outer inner : Z * list (option Z)) (obs : list (option Z))
 (* how many of a setter's arguments are converted (each argument is an object whose valueOf counts its call and
    returns the given number): 15.9.5.x converts every argument the setter takes, whatever the earlier ones gave *)
-| CConv (t : option Z) (args : list (option Z)) (count : Z).
+| CConv (t : option Z) (args : list (option Z)) (count : Z)
+(* Date.UTC (ctor = 0) / the multi-argument constructor (ctor = 1) on arguments given in THOUSANDTHS (None = NaN,
+   infinite or not a number): ToInteger of every field is computed here (Spec.toint), not by the harness *)
+| CUtcQ (ctor : Z) (fields : list (option Z)) (obs : option Z)
+(* a setter history in a host zone with constant offset off ms: ids 0..7 = setUTC* / setTime, 10..16 = the
+   local-time setters; arguments in thousandths, possibly MORE than the setter declares (the surplus is ignored);
+   obs = result and getTime() after each call; fin = getTime, 8 UTC fields, valueOf, 8 local fields after the
+   history; iso = toISOString() then (compared for years 0..9999, where model = spec) *)
+| CHist (off : Z) (t : option Z) (ops : list (Z * list (option Z))) (obs fin : list (option Z)) (iso : list Z)
+(* Date.parse(s) / new Date(s).getTime() on a full-form ISO string *)
+| CParse (s : list Z) (obs : option Z)
+(* conversions counted as in CConv, with arguments beyond the setter's parameter list: those are never converted *)
+| CConvS (id : Z) (t : option Z) (args : list (option Z)) (count : Z).
 
 Definition oz_eqb := option_eqb Z.eqb.
 Definition loz_eqb := list_eqb oz_eqb.
@@ -48,6 +60,27 @@ Definition conv_model (t : option Z) (args : list (option Z)) : Z :=
   match t with None => 0 | Some _ => conv_upto args end.
 Definition conv_spec (t : option Z) (args : list (option Z)) : Z := Z.of_nat (length args).
 
+Definition utcq_class (l : list (option Z)) : Z :=
+  if oz_eqb (clip (utcq_model l)) (utcq l) then 1 else 5.
+
+Definition qops (ops : list (Z * list (option Z))) := map (fun o => (fst o, tointf (snd o))) ops.
+Definition hist_class_z (off : Z) (t : option Z) (ops : list (Z * list (option Z))) : Z :=
+  if loz_eqb (set_hist (fun id t a => clip (set_model_z off id t a)) t ops) (set_hist (set_spec_z off) t ops)
+  then 1 else 2.
+Definition fin_expect (off : Z) (o : option Z) : list (option Z) :=
+  match o with
+  | Some t => map Some (fields t ++ [t] ++ tl (fields (t + off)))
+  | None => repeat None 18
+  end.
+Definition iso_in (o : option Z) (s : list Z) : list Z :=
+  match o with
+  | Some t => let y := YearFromTime t in if (0 <=? y) && (y <=? 9999) then s else []
+  | None => []
+  end.
+Definition iso_expect (o : option Z) : list Z := match o with Some t => toISO t | None => [] end.
+Definition hist_eqb (a b : list (option Z) * list (option Z) * list Z) : bool :=
+  loz_eqb (fst (fst a)) (fst (fst b)) && loz_eqb (snd (fst a)) (snd (fst b)) && zlist_eqb (snd a) (snd b).
+
 Definition verdict (c : case) : Z * Z :=
   match c with
   | CClip t obs => judge oz_eqb obs (ctor_model t) (TimeClip t) 1
@@ -69,6 +102,20 @@ Definition verdict (c : case) : Z * Z :=
       let sp := [set_spec (fst inner) t (snd inner); set_spec (fst outer) t (snd outer); set_spec (fst outer) t (snd outer)] in
       judge loz_eqb obs m sp (hist_class t [inner; outer])
   | CConv t args n => judge Z.eqb n (conv_model t args) (conv_spec t args) 4
+  | CUtcQ _ f obs => judge oz_eqb obs (utcq_model f) (utcq f) (utcq_class f)
+  | CHist off t ops obs fin iso =>
+      let ops' := qops ops in
+      let hm := set_hist (set_model_z off) t ops' in
+      let hs := set_hist (set_spec_z off) t ops' in
+      let lm := last hm t in
+      let ls := last hs t in
+      judge hist_eqb (obs, fin, iso_in lm iso)
+            (dup hm, fin_expect off lm, iso_in lm (iso_expect lm))
+            (dup hs, fin_expect off ls, iso_in ls (iso_expect ls))
+            (hist_class_z off t ops')
+  | CParse s obs => judge oz_eqb obs (parseISO s) (parseISO s) 0
+  | CConvS id t args n =>
+      judge Z.eqb n (conv_model t (firstn (arity id) args)) (conv_spec t (firstn (arity id) args)) 4
   | CCopy t ops obs other =>
       judge loz_eqb (other :: obs) (t :: dup (set_hist set_model t ops)) (t :: dup (set_hist set_spec t ops))
             (hist_class t ops)
